@@ -44,7 +44,7 @@ def fixture_health(chk):
     from entries import default_args
     path, th = extract('dev', repo=os.path.join(VERIF, 'fixtures', 'idioms'), crate='idioms')
     prog = Program(path)
-    expected_unsupported = {'all_zero'}     # closures over slice iterators: documented limit (DESIGN.md 7.6)
+    expected_unsupported = set()
     bad, n = [], 0
     for key in sorted(prog.instances):
         inst = prog.instances[key]
